@@ -52,6 +52,9 @@ func c10Fn(name string) (perColor func(color.Color) color.RGBA64, run func(dst d
 	if name == "hash" {
 		return c10Hash, func(d draw.Image, s image.Image, p int) { linear.TransformImageColor(d, s, p, c10Hash) }
 	}
+	if name == "typed" {
+		return c10Typed, func(d draw.Image, s image.Image, p int) { linear.TransformImageColor(d, s, p, c10Typed) }
+	}
 	if name == "wild" {
 		return c10Wild, func(d draw.Image, s image.Image, p int) { linear.TransformImageColor(d, s, p, c10Wild) }
 	}
@@ -356,7 +359,7 @@ func c10Cells(seed int64, thorough bool, race bool) []c10Cell {
 	}
 	// per-colour functions returning invalid premultiplied colours, through every (src, dst) pair;
 	// in-place cells whose rows are related through the transform itself
-	for _, sk := range c10SrcKinds {
+	for _, sk := range append(append([]string{}, c10SrcKinds...), "override", "override64") {
 		for _, dk := range c10DstKinds {
 			for _, mode := range []string{"same", "sub"} {
 				par := 1 + fi%4
@@ -365,6 +368,12 @@ func c10Cells(seed int64, thorough bool, race bool) []c10Cell {
 					continue
 				}
 				cells = append(cells, c10Cell{Src: sk, SrcSub: fi%2 == 0, Dst: dk, W: 9, H: 6, OX: 2, OY: 1, DstMode: mode, Par: par, Fn: "wild", Seed: rng.U64()})
+				// a function that looks at the concrete colour; sources that override At
+				cells = append(cells, c10Cell{Src: sk, SrcSub: fi%2 == 1, Dst: dk, W: 9, H: 6, OX: 2, OY: 1, DstMode: mode, Par: 1 + (fi+1)%4, Fn: "typed", Seed: rng.U64()})
+				if strings.HasPrefix(sk, "override") {
+					cells = append(cells, c10Cell{Src: sk, SrcSub: fi%2 == 0, Dst: dk, W: 13, H: 7, OX: -2, OY: 3, DstMode: mode, Par: 1 + (fi+2)%4, Fn: fns[fi%len(fns)], Seed: rng.U64()},
+						c10Cell{Src: sk, SrcSub: fi%2 == 1, Dst: dk, W: 13, H: 7, OX: 0, OY: 0, DstMode: mode, Par: 1 + (fi+3)%4, Fn: "hash", Seed: rng.U64()})
+				}
 			}
 			if sk == dk && dk != "opaque" && !race {
 				for _, par := range []int{1, 2, 3, 5} {
